@@ -77,8 +77,8 @@ def rdExec (arn : Str) : Json → Option Exec
     let sp ← objGet kvs "stopDate".toList
     let a ← getStr kvs "executionArn"
     if a ≠ arn then none
-    else if kvs.any (fun kv => !(execKeys.contains (String.ofList kv.1))) then none
-    else pure ⟨name, sm, st, i, o, sd, sp⟩
+    else pure ⟨name, sm, st, i, o, sd, sp,
+               kvs.filter (fun kv => !(execKeys.contains (String.ofList kv.1)))⟩
   | _ => none
 
 def rdMap {α : Type} (f : Str → Json → Option α) : List (Str × Json) → Option (List (Str × α))
